@@ -2,7 +2,7 @@
    In both models a panic, an arithmetic overflow (checked arithmetic), an out-of-range shift and an
    unreachable-code trap all appear as the outcome [Panic]. *)
 From Coq Require Import NArith Arith Bool List Lia.
-From PK Require Import Base.Outcome Base.Finite Base.Machine Gen.Types Impl Spec.Frame Spec.Mods Check.Scan Check.Ps2M Check.Lay Check.EvImpl Enc.
+From PK Require Import Base.Outcome Base.Finite Base.Machine Base.Reach Gen.Types Impl Spec.Frame Spec.Mods Check.Scan Check.Ps2M Check.Lay Check.EvImpl Enc.
 Import ListNotations.
 Local Open Scope N_scope.
 
@@ -33,13 +33,13 @@ Definition bad_pred_C08 (P : PredImpl) (m : Modifiers) : bool :=
   negb (is_ret (p_is_shifted P m) && is_ret (p_is_ctrl P m) && is_ret (p_is_alt P m) && is_ret (p_is_altgr P m) && is_ret (p_is_caps P m)).
 
 (* --- scancode decoders: every byte stream, from the reachable-state invariant of C07 --- *)
-Theorem C08_scancodes (I : ScanImpl) (s0 : sc_st I) (sts : list (sc_st I)) :
-  inv_closed (scan_machine I) (sc_eqb I) all_bytes sts s0 = true ->
+Theorem C08_scancodes (I : ScanImpl) (key : sc_st I -> N) (s0 : sc_st I) (m : buckets (scan_machine I)) :
+  kinv_closed (scan_machine I) (sc_eqb I) key all_bytes m s0 = true ->
   forall bs, Forall byte bs -> exists s' os, run (scan_machine I) s0 bs = Ret (s', os).
 Proof.
   intros Hinv bs Hb. apply bytes_in in Hb.
-  destruct (@reach_inv _ _ (scan_machine I) (sc_eqb I) (sc_eqb_ok I) all_bytes sts s0 Hinv bs Hb s0
-              (@init_in _ _ (scan_machine I) (sc_eqb I) (sc_eqb_ok I) all_bytes sts s0 Hinv)) as (s' & os & R & _).
+  destruct (@kreach_inv _ _ (scan_machine I) (sc_eqb I) key all_bytes (sc_eqb_ok I) m s0 Hinv bs Hb s0
+              (@kinit_in _ _ (scan_machine I) (sc_eqb I) key all_bytes (sc_eqb_ok I) m s0 Hinv)) as (s' & os & R & _).
   eauto.
 Qed.
 
@@ -54,17 +54,19 @@ Proof.
   destruct (ps_add_word I s0 w); [discriminate | discriminate B].
 Qed.
 
-(* --- frame decoder, bit-serial: reachable-state invariant (bounded exploration, then closure) --- *)
-Definition ps2_states (I : Ps2Impl) (s0 : ps_st I) : list (ps_st I) :=
-  explore (ps2_machine I) (ps_eqb I) all_ops 64 [s0] [s0].
-Notation inv_ps2 I s0 := (inv_closed (ps2_machine I) (ps_eqb I) all_ops (ps2_states I s0) s0).
-Theorem C08_bitops (I : Ps2Impl) (s0 : ps_st I) :
-  inv_ps2 I s0 = true -> forall ops : list bit_op, exists s' os, run (ps2_machine I) s0 ops = Ret (s', os).
+(* --- frame decoder, bit-serial: reachable-state invariant (bounded exploration, then closure).
+   The candidate set is kept in a trie keyed by [key] (Base/Reach.v), so that a frame decoder with tens
+   of thousands of reachable states is still decided in seconds; any key function is sound. --- *)
+Definition ps2_kstates (I : Ps2Impl) (key : ps_st I -> N) (s0 : ps_st I) : buckets (ps2_machine I) :=
+  kstates (ps2_machine I) (ps_eqb I) key all_ops 4000 300000 s0.
+Notation inv_ps2 I key s0 := (kinv_closed (ps2_machine I) (ps_eqb I) key all_ops (ps2_kstates I key s0) s0).
+Theorem C08_bitops (I : Ps2Impl) (key : ps_st I -> N) (s0 : ps_st I) :
+  inv_ps2 I key s0 = true -> forall ops : list bit_op, exists s' os, run (ps2_machine I) s0 ops = Ret (s', os).
 Proof.
   intros Hinv ops.
   assert (Hall : Forall (fun op => In op all_ops) ops) by (apply Forall_forall; intros op _; apply all_ops_complete).
-  destruct (@reach_inv _ _ (ps2_machine I) (ps_eqb I) (ps_eqb_ok I) all_ops (ps2_states I s0) s0 Hinv ops Hall s0
-              (@init_in _ _ (ps2_machine I) (ps_eqb I) (ps_eqb_ok I) all_ops (ps2_states I s0) s0 Hinv)) as (s' & os & R & _).
+  destruct (@kreach_inv _ _ (ps2_machine I) (ps_eqb I) key all_ops (ps_eqb_ok I) (ps2_kstates I key s0) s0 Hinv ops Hall s0
+              (@kinit_in _ _ (ps2_machine I) (ps_eqb I) key all_ops (ps_eqb_ok I) (ps2_kstates I key s0) s0 Hinv)) as (s' & os & R & _).
   eauto.
 Qed.
 
